@@ -200,11 +200,11 @@ fn load_mmap_like<T: Deserialize>(_: &T, p: &Path, f: Flags) -> MemCase<DeserTyp
 }
 
 fn pick_flags(rng: &mut SmallRng) -> Flags {
+    // only the madvise-style hints; huge pages depend on the kernel set-up
     match rng.random_range(0..4) {
-        0 => Flags::empty(),
-        1 => Flags::SEQUENTIAL,
-        2 => Flags::RANDOM_ACCESS,
-        _ => Flags::TRANSPARENT_HUGE_PAGES,
+        0 | 1 => Flags::empty(),
+        2 => Flags::SEQUENTIAL,
+        _ => Flags::RANDOM_ACCESS,
     }
 }
 
